@@ -289,6 +289,13 @@ def cases_for(ctx, rng):
             cases.append((f"tail{m}+{k}:v{target}->0", "tail", relabel(pos, edges, cross, perm)))
         cases.append((f"tail{m}+{k}:random", "tail", relabel(pos, edges, cross, rng.permutation(n))))
         cases.append((f"tail{m}+{k}:reversed", "tail", relabel(pos, edges, cross, np.arange(n)[::-1].copy())))
+    # lattices without any edge (bare points, or what is left when every edge has been removed): relabelling still has to move the positions
+    cases.append(("bare-points3", "edgeless", Lattice(np.array([[0.1, 0.2], [0.7, 0.3], [0.4, 0.9]]), np.zeros((0, 2), dtype=int), np.zeros((0, 2), dtype=int))))
+    hb = eg.honeycomb_lattice(2)
+    try:
+        cases.append(("honey2-minus-sublattice", "edgeless", gu.remove_vertices(hb, np.unique(hb.edges.indices[:, 0]))))
+    except Exception:
+        pass
     # the fixed witness of known finding K1: a square with an inward dangling edge (always exercised)
     cases.append(("K1-witness", "spike", Lattice(np.array([[0.2, 0.2], [0.8, 0.2], [0.8, 0.8], [0.2, 0.8], [0.5, 0.55]]),
                                                np.array([[0, 1], [1, 2], [2, 3], [3, 0], [0, 4]]), np.zeros((5, 2), dtype=int))))
